@@ -69,7 +69,7 @@ COMMON = ["--srcip", "10.9.0.77", "--gwmac", "02:5a:00:00:00:fe", "-a", "{dir}/e
 
 def packet_expect(scan, tgt, chunk_ranges, chunk_probes, delay_ms, has_net=True, rate=None, srcip=None, srcmac=None, dstmac=None):
     return {"kind": "packet", "scan": scan, "target": tgt, "hasNet": has_net, "chunkRanges": chunk_ranges, "chunkProbes": chunk_probes, "delayUs": delay_ms * 1000,
-            "rate": rate or NORATE, "srcip": srcip or SRC, "srcmac": srcmac or MY, "dstmac": dstmac or GW}
+            "rate": rate or NORATE, "srcip": srcip or SRC, "srcmac": srcmac or MY, "dstmac": dstmac or GW, "dstmacs": []}
 
 
 def scenarios(tier):
@@ -136,6 +136,21 @@ def scenarios(tier):
     sc.append({"name": "attach-window-flood", "args": ["tcp", "fin", "--json", "-p", "80"] + COMMON + ["--exit-delay", "300ms", "10.9.3.0/30"], "files": {"empty": ""},
                "flood": tcp_reply([192, 168, 7, 7], 9999, 0x14),
                "expect": packet_expect("tcpfin", target(net30, 30, [rng(80, 80)]), [[rng(80, 80)]], [4], 300)})
+    # 9c. `sx arp --json` output used as the ARP cache of an IP-level scan (stdin), no gateway MAC: probes go to the MAC the ARP scan printed
+    # for their own destination; destinations without an entry become errors, not probes
+    m1, m2 = [2, 0x5a, 7, 7, 7, 1], [2, 0x5a, 7, 7, 7, 2]
+    sc.append({"name": "arp-for-cache", "args": ["arp", "--json", "--exit-delay", "500ms", "10.9.3.0/30"],
+               "inject": [{"bytes": arp_reply(a(1), [2, 0x5a, 6, 6, 6, 6]), "afterProbe": 1, "delayMs": 20},      # superseded by the next line for .1
+                          {"bytes": arp_reply(a(1), m1), "afterProbe": 1, "delayMs": 60}, {"bytes": arp_reply(a(2), m2), "afterProbe": 1, "delayMs": 80}],
+               "expect": packet_expect("arp", target(net30, 30), [[]], [4], 500, srcip=[10, 9, 0, 1], dstmac=[255] * 6)})
+    sc.append({"name": "tcp-from-arp-output", "stdinFrom": "arp-for-cache", "args": ["tcp", "syn", "--json", "-p", "80", "--srcip", "10.9.0.77", "--exit-delay", "400ms", "10.9.3.0/30"],
+               "expect": dict(packet_expect("tcpsyn", target(net30, 30, [rng(80, 80)], pairs=[{"ip": a(1), "port": 80}, {"ip": a(2), "port": 80}]), [[rng(80, 80)]], [2], 400),
+                              dstmacs=[{"ip": a(1), "mac": m1}, {"ip": a(2), "mac": m2}])})
+    # 9d. live mode: complete passes, at least the rescan interval apart, every host printed once however often it answers
+    sc.append({"name": "arp-live", "args": ["arp", "--json", "--live", "400ms", "10.9.3.0/30"], "sigintAfter": 14, "maxMs": 12000,
+               "inject": [{"bytes": arp_reply(a(1), m1), "afterProbe": 1, "delayMs": 10}, {"bytes": arp_reply(a(1), m1), "afterProbe": 5, "delayMs": 10},
+                          {"bytes": arp_reply(a(2), m2), "afterProbe": 6, "delayMs": 10}, {"bytes": arp_reply(a(1), m1), "afterProbe": 9, "delayMs": 10}],
+               "expect": {"kind": "live", "scan": "arp", "target": target(net30, 30), "naddr": 4, "intervalUs": 400000, "minPasses": 3}})
     # 10. targets that are not IPv4 are refused before anything is sent
     for i, t in enumerate(["::1", "::ffff:10.9.3.1/126", "fe80::1/64", "10.9.3.1/33", "10.9.3"]):
         sc.append({"name": "refuse-%d" % i, "args": ["tcp", "syn", "--json", "-p", "80"] + COMMON + ["--exit-delay", "300ms", t], "files": {"empty": ""}, "maxMs": 6000,
@@ -198,26 +213,40 @@ def run_wire(ctx, select=None, label="wire", focus="all"):
         ctx.notes.append("socket-level tier skipped: unshare -n is not permitted here")
         ctx.step(label, skipped=True)
         return 0, []
-    sc = [s for s in scenarios(ctx.tier) if select is None or select(s)]
+    allsc = scenarios(ctx.tier)
+    sc = [s for s in allsc if select is None or select(s)]
+    need = {s["stdinFrom"] for s in sc if s.get("stdinFrom")}
+    sc += [s for s in allsc if s["name"] in need and s not in sc]
     binary = ctx.go_build_test("./command")
     sx = ctx.build_sx()
-    groups = 4
     import concurrent.futures
-    envs = []
-    for k in range(groups):
-        part = sc[k::groups]
-        if not part:
-            continue
-        sp = os.path.join(ctx.scratch, "%s-scen-%d.ndjson" % (label, k))
-        vf.write_ndjson(sp, part)
-        envs.append({"VF_SCENARIOS": sp, "VF_OUT": os.path.join(ctx.scratch, "%s-out-%d.ndjson" % (label, k)), "VF_SX": sx})
-    with concurrent.futures.ThreadPoolExecutor(max_workers=len(envs)) as ex:
-        res = list(ex.map(lambda e: ctx.go_run_test(binary, "^TestVfWire$", e, 900, True), envs))
-    events = []
-    for (rc, out), e in zip(res, envs):
-        if rc != 0:
-            raise vf.Inconclusive("virtual-wire harness failed:\n" + out[-3000:])
-        events += vf.read_ndjson(e["VF_OUT"])
+
+    def phase(part_all, tag):
+        groups = 4
+        envs = []
+        for k in range(groups):
+            part = part_all[k::groups]
+            if not part:
+                continue
+            sp = os.path.join(ctx.scratch, "%s-%s-scen-%d.ndjson" % (label, tag, k))
+            vf.write_ndjson(sp, part)
+            envs.append({"VF_SCENARIOS": sp, "VF_OUT": os.path.join(ctx.scratch, "%s-%s-out-%d.ndjson" % (label, tag, k)), "VF_SX": sx})
+        if not envs:
+            return []
+        with concurrent.futures.ThreadPoolExecutor(max_workers=len(envs)) as ex:
+            res = list(ex.map(lambda e: ctx.go_run_test(binary, "^TestVfWire$", e, 900, True), envs))
+        evs = []
+        for (rc, out), e in zip(res, envs):
+            if rc != 0:
+                raise vf.Inconclusive("virtual-wire harness failed:\n" + out[-3000:])
+            evs += vf.read_ndjson(e["VF_OUT"])
+        return evs
+    events = phase([s for s in sc if not s.get("stdinFrom")], "p1")
+    second = [s for s in sc if s.get("stdinFrom")]
+    for s in second:        # the standard input of these runs is the standard output of an earlier one
+        src = next(e for e in events if e["name"] == s["stdinFrom"])
+        s["stdin"] = "".join(l + "\n" for l in src["stdout"])
+    events += phase(second, "p2")
     byid = {s["id"]: s for s in sc}
     for e in events:
         s = byid[e["id"]]
